@@ -1,7 +1,7 @@
 (* replays the histories written by harness/cmd/c17 (format of harness/internal/hist plus V
    lines) on the extracted Ledger model and evaluates the scheduled queries with
    coq/Sched/Reads.v.  stdout, tab separated:
-     V <hist> <k> <kind> <impl answer> <model answer> <nreads impl> <nreads model> <boundary j or -1> <snapshot answer = impl ? 1:0> <immature coins> <sched>
+     V <hist> <k> <kind> <impl answer> <no-snapshot model answer> <nreads impl> <nreads no-snapshot model> <boundary j or -1> <snapshot answer = impl ? 1:0> <immature coins> <sched> <nreads snapshot model>
      Q / P lines as ocaml/C01/driver.ml
    boundary j = some j in [first commit index, last commit index] whose single-boundary answer
    equals the implementation's answer (-1: the answer mixes boundaries).
@@ -149,9 +149,10 @@ let () =
                       not !ok) l)
                 | _ -> 0 in
               incr k;
-              Printf.printf "V\t%s\t%d\t%s\t%s\t%s\t%d\t%d\t%d\t%d\t%d\t%s\n" !hist !k kind impl model
+              Printf.printf "V\t%s\t%d\t%s\t%s\t%s\t%d\t%d\t%d\t%d\t%d\t%s\t%d\n" !hist !k kind impl model
                 (List.length sc_i) nr !boundary (if snap = impl then 1 else 0) imm
                 (String.concat "," (List.map string_of_int sc_all))
+                (int_of_nat (nreads ord true ss sched q))
             | _ -> print_endline ("X\t" ^ line))
          | _ -> print_endline ("X\t" ^ line))
     | "X" :: _ -> print_endline ("X\t" ^ line)
